@@ -121,3 +121,46 @@ func TestProbeC10RequestBeforeRecovery(t *testing.T) {
 	}
 	probeReport(t, "C10-request-before-recovery", live > 1, fmt.Sprintf("(%d non-terminal swaps on one channel)", live))
 }
+
+func TestProbeC16ClaimBroadcastNotPersisted(t *testing.T) {
+	const id = "C16-claim-broadcast-not-persisted"
+	run := func(crashAt int) (*sim.World, *sim.Node, string, bool) {
+		w, a, _, sid := driveSwapOutToConfirmed(t, "btc")
+		evs := a.DueWatcherEvents()
+		if len(evs) == 0 || sid == "" {
+			return w, a, sid, false
+		}
+		w.CrashAt = crashAt
+		crashed, _ := a.DeliverWatcherEvent(evs[0])
+		return w, a, sid, crashed
+	}
+	w, _, _, _ := run(-1)
+	crashIdx := -1
+	for _, e := range w.TraceCopy() {
+		if e.Call == "wallet.CreatePreimageSpendingTransaction" && e.Phase == "exit" {
+			crashIdx = e.Idx
+		}
+	}
+	w.Close()
+	if crashIdx < 0 {
+		probeReport(t, id, false, "(no claim broadcast seen)")
+		return
+	}
+	w2, a2, sid, crashed := run(crashIdx)
+	defer w2.Close()
+	if !crashed {
+		probeReport(t, id, false, "(crash point not hit)")
+		return
+	}
+	for i := 0; i < 3; i++ {
+		a2.Kill()
+		a2.Boot()
+		a2.Recover()
+		w2.Mine("btc", 10)
+		for _, ev := range a2.DueWatcherEvents() {
+			a2.DeliverWatcherEvent(ev)
+		}
+	}
+	rec := recOf(a2, sid)
+	probeReport(t, id, rec != nil && !isTerminal(rec.Current), fmt.Sprintf("(claim tx accepted by the chain, swap still in %s after three restarts)", rec.Current))
+}
